@@ -81,7 +81,8 @@ var syntaxPats = []string{
 	"$x + $y", "$x - $y", "$x * $y", "use($x)", "-$x", "$x[$_]", "($x)", "return $x",
 	"if $x { $*_ }", "{ $*_; use($x) }", "{ $x := $_; $*_ }", "$_ = $x",
 	// list patterns: statements, expressions, declarations (no node of their own: tried on every node that holds such a list)
-	"$x := $_; use($x)", "$x, $_", "func ($x) Mark($_) {}; type $_ struct{}", "$_; use($x)",
+	// (each matches at most once in any one list of the probe file: one report per rule and node, as for the other patterns)
+	"$x := $_; use($x)", "$x, $_", "func ($x) Mark(int8) {}; type $_ struct{}", "$_ = $_; use($x)",
 }
 var commentPats = []string{`TODO`, `FIXME|TODO`, `\((alice|bob)\)`}
 var filters = []string{
@@ -545,10 +546,25 @@ func genFile(rng *rand.Rand, id int, uid *int, pkgs map[string][]*SFile) *RFile 
 	sf.Fns = genFns(rng)
 	sf.KSize = []int{1, 2, 4, 8}[(id+rng.Intn(2))%4]
 	sf.Marker = []int{1, 2, 4, 8}[(id/2+rng.Intn(3))%4]
+	for id >= 7 && len(sf.Fns) == 2 && sf.Fns[0].Body == 1 {
+		sf.Fns = genFns(rng) // not the variant that is rejected (a function used before its declaration)
+	}
+	if id == 8 || id == 9 {
+		// files 8 and 9 of every pool load, alone and together (no group name in common), and declare different types
+		if id == 8 {
+			names = []string{"g1", "g2", "by"}
+		} else {
+			names = []string{"g3", "g4", "g5"}
+		}
+		sf.Marker = []int{1, 2, 4, 8}[(id+rng.Intn(2)*2)%4]
+	}
 	ng := 1 + rng.Intn(3)
 	badAt := -1
 	if rng.Intn(4) == 0 || id <= 3 {
 		badAt = rng.Intn(ng)
+	}
+	if id >= 7 {
+		badAt = -1
 	}
 	for gi := 0; gi < ng; gi++ {
 		g := Group{Name: names[gi]}
@@ -556,7 +572,13 @@ func genFile(rng *rand.Rand, id int, uid *int, pkgs map[string][]*SFile) *RFile 
 		for ri := 0; ri < nr; ri++ {
 			g.Rules = append(g.Rules, genRule(rng, uid, sf.Fns, true))
 		}
-		if gi == 0 && id != 7 && (id <= 3 || rng.Intn(3) != 0) && g.Rules[0].Kind == "syntax" {
+		if gi == 0 && id != 7 && g.Rules[0].Kind != "syntax" && (id <= 3 || id >= 8) {
+			g.Rules = append([]Rule{genRule(rng, uid, nil, true)}, g.Rules...)
+			if g.Rules[0].Kind != "syntax" {
+				g.Rules[0] = Rule{UID: g.Rules[0].UID, Kind: "syntax"}
+			}
+		}
+		if gi == 0 && id != 7 && (id <= 3 || id >= 8 || rng.Intn(3) != 0) && g.Rules[0].Kind == "syntax" {
 			// most files begin with a rule that names the file's own type (the files that fail to load: always)
 			g.Rules[0].Filter = markerFilters[rng.Intn(len(markerFilters))]
 			g.Rules[0].Fn = ""
@@ -574,7 +596,7 @@ func genFile(rng *rand.Rand, id int, uid *int, pkgs map[string][]*SFile) *RFile 
 				}
 			}
 		}
-		if gi == badAt && id != 7 {
+		if gi == badAt {
 			*uid++
 			bad := Rule{UID: *uid, Kind: "bad", Bad: rng.Intn(10), Pat: rng.Intn(len(syntaxPats))}
 			switch id { // the first three files of every pool fail in one way of each class
@@ -592,7 +614,7 @@ func genFile(rng *rand.Rand, id int, uid *int, pkgs map[string][]*SFile) *RFile 
 	}
 	rf := &RFile{Main: sf}
 	shape := rng.Intn(10)
-	if id == 7 { // ... alone in its file: no bundle, nothing that fails
+	if id >= 7 { // ... alone in its file: no bundle, nothing that fails
 		shape = 5
 	}
 	if id >= 4 && id <= 6 { // files 4-6 of every pool import one bundle more than once, in each of the three ways
@@ -614,7 +636,7 @@ func genFile(rng *rand.Rand, id int, uid *int, pkgs map[string][]*SFile) *RFile 
 	case 3:
 		rf.Bundles = []Bundle{{Prefix: "p1", Pkg: "rb2", Files: pkgs["rb2"]}, {Prefix: "p1", Pkg: "rb1", Files: pkgs["rb1"]}}
 	}
-	if rng.Intn(14) == 0 && id != 7 {
+	if rng.Intn(14) == 0 && id < 7 {
 		rf.Broken = true
 	}
 	sf.ListOnly = listOnly(sf)
@@ -754,6 +776,13 @@ func main() {
 					keys = append(keys, rp.Key)
 				}
 				out.Acc[k] = keys
+				seenKey := map[string]bool{}
+				for _, key := range keys {
+					if seenKey[key] {
+						problem("rule %d reports node %s twice when loaded alone (the probe file must give a list pattern one match per list)", r.UID, key)
+					}
+					seenKey[key] = true
+				}
 				// the same file on an engine with a load history: what a rule reports is not a matter of being first
 				e2 := ruleguard.NewEngine()
 				if o2 := load(e2, t.Fset, "ballast.go", ballast, "src", nil); !o2.OK {
@@ -814,6 +843,14 @@ func main() {
 			if i == 0 && h%5 == 0 && len(out.Files) >= 7 {
 				// the file whose rules are all list patterns is the first thing the engine loads, with every group accepted
 				op.File, op.Filter = 6, -1
+			}
+			if i < 2 && (h%5 == 1 || h%5 == 2) && len(out.Files) >= 9 {
+				// two files that declare a type of the same name, one after the other on one engine (h%5 == 1: both load;
+				// h%5 == 2: the first one is a file that fails after it resolved its type)
+				op.File, op.Filter = 7+(h/5+i)%2, -1
+				if i == 0 && h%5 == 2 {
+					op.File = (h / 5) % 3
+				}
 			}
 			hist.Ops = append(hist.Ops, op)
 			var s Step
